@@ -114,7 +114,7 @@ def gen_C01(tier, seed):
                 for op in ("find", "iter"):
                     reqs.append(fmt_req(op, {"mk": mk, "pats": hxlist(pats), "hay": hx(hay), "cfgs": cfgs(cf)}))
     reqs += _enum_small(["lf", "ll"], ["find", "iter"], ["nc.d.1.0.b", "c.0.0.0.b", "dfa.d.1.0.u"],
-                        maxp=2, maxplen=2, maxhay=qn(q, 3, 5), stride=1)
+                        maxp=2, maxplen=2, maxhay=(3 if q else 5), stride=1)
     if not q:
         reqs += _enum_small(["lf", "ll"], ["find", "iter"], ["nc.d.1.0.b", "dfa.d.1.0.u"],
                             maxp=3, maxplen=2, maxhay=4, stride=3)
@@ -133,7 +133,7 @@ def gen_C02(tier, seed):
             for op in ("find", "iter"):
                 reqs.append(fmt_req(op, {"mk": "std", "pats": hxlist(pats), "hay": hx(hay), "cfgs": cfgs(cf)}))
     reqs += _enum_small(["std"], ["find", "iter"], ["nc.d.1.0.b", "c.0.0.0.b", "dfa.d.1.0.u"],
-                        maxp=2, maxplen=2, maxhay=qn(q, 3, 5))
+                        maxp=2, maxplen=2, maxhay=(3 if q else 5))
     reqs += _find_like(g, qn(q, 250, 2500), ["std"], ["find", "iter"], cf)
     certs = _fixed_certs(["std"], CORPUS_LISTS) + _certs(g, qn(q, 150, 600), ["std"])
     return {"reqs": reqs, "certs": certs, "first": True, "gen": g, "modes": "0", "l1c": True}
@@ -150,7 +150,7 @@ def gen_C03(tier, seed):
                                         "n": 4 + (len(pats) + 1) * (len(hay) + 1), "cfgs": cfgs(cf)}))
             reqs.append(fmt_req("ovliter", {"mk": "std", "pats": hxlist(pats), "hay": hx(hay), "cfgs": cfgs(cf)}))
     reqs += _enum_small(["std"], ["ovl", "ovliter"], ["nc.d.1.0.b", "c.0.0.0.b", "dfa.d.1.0.u"],
-                        maxp=2, maxplen=2, maxhay=qn(q, 3, 4))
+                        maxp=2, maxplen=2, maxhay=(3 if q else 4))
     reqs += _find_like(g, qn(q, 250, 2500), ["std"], ["ovl", "ovliter"], cf, fold=0.25)
     certs = _fixed_certs(["std"], CORPUS_LISTS) + _fixed_certs(["std"], CORPUS_LISTS[:6], fold=True) + \
         _certs(g, qn(q, 40, 400), ["std"], fold=0.3)
@@ -192,7 +192,7 @@ def gen_C09(tier, seed):
                                                 "anch": 1, "n": 4 + (len(pats) + 1) * (len(hay) + 1),
                                                 "cfgs": cfgs(CFG_ANCH)}))
     reqs += _enum_small(["std", "lf", "ll"], ["find", "iter"], ["nc.d.1.0.b", "c.0.0.0.b", "dfa.d.1.0.a"],
-                        maxp=2, maxplen=2, maxhay=qn(q, 3, 4), anch=True)
+                        maxp=2, maxplen=2, maxhay=(3 if q else 4), anch=True)
     reqs += _enum_small(["std"], ["ovl"], ["nc.d.1.0.b", "c.0.0.0.b", "dfa.d.1.0.a"],
                         maxp=2, maxplen=2, maxhay=3, anch=True)
     reqs += _find_like(g, qn(q, 200, 2000), ["std", "lf", "ll"], ["find", "iter"], CFG_ANCH, anch=True)
@@ -207,9 +207,18 @@ def gen_C09(tier, seed):
 def gen_C11(tier, seed):
     g = Gen(seed)
     q = tier == "quick"
-    cf = CFG_LOW + CFG_TOP
+    cf = CFG_LOW + CFG_TOP + CFG_PRE
     kinds = ["casey", "casey", "tiny"]
     reqs = []
+    # case-insensitive searchers with each prefilter variant (start / rare bytes get both cases)
+    for _ in range(qn(q, 150, 1500)):
+        pats = pre_pats(g)
+        mk = g.rng.choice(["std", "lf", "ll"])
+        for _ in range(2):
+            hay = pre_hay(g, pats, True)
+            s0, e0 = g.span(len(hay))
+            reqs.append(fmt_req(g.rng.choice(["find", "iter"]), {"mk": mk, "pats": hxlist(pats), "hay": hx(hay), "s": s0, "e": e0,
+                                                              "fold": 1, "cfgs": cfgs(CFG_PRE + ["nc.d.1.0.b"])}))
     # every byte value against every boundary pattern byte
     for pb in (0x40, 0x41, 0x5A, 0x5B, 0x60, 0x61, 0x7A, 0x7B, 0xC1, 0xE1, 0x30):
         for hb in range(256):
@@ -235,7 +244,7 @@ def gen_C14(tier, seed):
     reqs += _find_like(g, qn(q, 200, 2000), ["lf", "ll", "std"], ["find"], cf, earliest=True)
     reqs += _find_like(g, qn(q, 100, 1000), ["lf", "ll"], ["find"], CFG_ANCH, anch=True, earliest=True)
     reqs += _enum_small(["lf", "ll"], ["ismatch"], ["nc.d.1.0.b", "dfa.d.1.0.u"], maxp=2, maxplen=2,
-                        maxhay=qn(q, 3, 4))
+                        maxhay=(3 if q else 4))
     # is_match / earliest read the same tables as find: certify them too (first-pattern strength, both anchorings)
     certs = _fixed_certs(["std", "lf", "ll"], CORPUS_LISTS) + _certs(g, qn(q, 30, 300), ["std", "lf", "ll"], fold=0.2)
     return {"reqs": reqs, "certs": certs, "first": True, "gen": g}
@@ -300,7 +309,7 @@ def _stream_reqs(g, tier, op, faults=False):
         return fmt_req(op, kv)
 
     # complete enumeration of read schedules on short streams
-    maxlen = qn(q, 5, 8)
+    maxlen = (5 if q else 8)
     streams = enum_words(b"ab", maxlen, empty=True)
     for pats in STREAM_PATS[: 6 if q else len(STREAM_PATS)]:
         for data in streams:
@@ -338,7 +347,7 @@ def _stream_reqs(g, tier, op, faults=False):
                 extra = {"wlimit": g.rng.randint(0, len(data) + 3)}
         reqs.append(mk(pats, data, sched, spare, extra))
     # production buffer size: match straddling the 64 KiB boundary at every alignment
-    for k in range(0, qn(q, 4, 12)):
+    for k in range(0, (4 if q else 12)):
         pats = [b"abc", b"bcd"]
         data = bytearray(b"x" * (65536 + 20))
         pos = 65536 - 3 + k % 6
@@ -691,7 +700,7 @@ def gen_C06(tier, seed):
     # width, final overlapped window, carry lanes), for 1..4-byte fingerprints, all variants
     sets = [[b"abc", b"bcd"], [b"abcd", b"bcde"]] + ([] if q else [[b"ab", b"cd"], [b"ab", b"b"], [b"abcde", b"abc"]])
     for pats in sets:
-        for n in range(0, qn(q, 72, 104)):
+        for n in range(0, (72 if q else 104)):
             for pos in range(0, max(1, n - len(pats[0]) + 1)):
                 hay = bytearray(b"x" * n)
                 hay[pos:pos + len(pats[0])] = pats[0][: max(0, n - pos)]
@@ -726,6 +735,14 @@ def gen_C20(tier, seed):
         kv = {"mk": g.rng.choice(["std", "lf", "ll"]), "pats": hxlist(pats), "cfgs": cfgs(allc)}
         if g.rng.random() < 0.3:
             kv["fold"] = 1
+        reqs.append(fmt_req("meta", kv))
+        reqs.append(fmt_req("selfcheck", kv))
+    # pattern ids through a confirming (packed) prefilter when leftmost-first drops patterns from the trie
+    for _ in range(qn(q, 40, 400)):
+        base = [g.word(b"abcdefgh", 2, 5) for _ in range(g.rng.randint(4, 10))]
+        i = g.rng.randrange(len(base))
+        pats = base[:i + 1] + [base[i] + g.word(b"xyz", 1, 3)] + base[i + 1:]
+        kv = {"mk": "lf", "pats": hxlist(pats), "cfgs": cfgs(allc)}
         reqs.append(fmt_req("meta", kv))
         reqs.append(fmt_req("selfcheck", kv))
     # the automatic choice switches at 100 patterns
@@ -817,16 +834,19 @@ def gen_C13(tier, seed):
     g = Gen(seed)
     q = tier == "quick"
     lists = [([b"ab", b"b"], [b"", b"ab"]), ([b"x"], [b"x", b""])] + ([] if q else [([b"abc", b"bc", b"c"], [b"", b"", b"a"])])
-    hays = [b"xabx", b""] + ([] if q else [b"ab"])
+    # haystack + span: ordinary, empty, and a "done" input (start = end + 1)
+    hays = [(b"xabx", None), (b"", None), (b"xabx", (3, 2))] + ([] if q else [(b"ab", None), (b"ab", (1, 0))])
     reqs = []
     for api in TOP_APIS:
         for mk in ("std", "lf", "ll"):
             for anch in (0, 1):
                 for noempty, withempty in lists:
                     for pats in (noempty, withempty):
-                        for hay in hays:
+                        for hay, span in hays:
                             top = ["%s.d.1.0.%s" % (k, sk) for k in ("tnc", "tc", "tdfa", "auto") for sk in "uab"]
                             kv = {"api": api, "mk": mk, "pats": hxlist(pats), "hay": hx(hay), "cfgs": cfgs(top)}
+                            if span:
+                                kv["s"], kv["e"] = span
                             if anch:
                                 kv["anch"] = 1
                             reqs.append(fmt_req("gate", kv))
@@ -836,10 +856,13 @@ def gen_C13(tier, seed):
                 for noempty, withempty in lists:
                     for pats in (noempty, withempty):
                         low = ["nc.d.1.0.b", "c.d.1.0.b", "dfa.d.1.0.u", "dfa.d.1.0.a", "dfa.d.1.0.b"]
-                        kv = {"api": api, "mk": mk, "pats": hxlist(pats), "hay": hx(b"xabx"), "cfgs": cfgs(low)}
-                        if anch:
-                            kv["anch"] = 1
-                        reqs.append(fmt_req("gate", kv))
+                        for span in (None, (3, 2)):
+                            kv = {"api": api, "mk": mk, "pats": hxlist(pats), "hay": hx(b"xabx"), "cfgs": cfgs(low)}
+                            if span:
+                                kv["s"], kv["e"] = span
+                            if anch:
+                                kv["anch"] = 1
+                            reqs.append(fmt_req("gate", kv))
     return {"reqs": reqs, "certs": [], "gen": g, "exhaustive": True}
 
 
@@ -857,7 +880,7 @@ def custom_C15(run, chk):
     variants = ";".join(PACKED_VARIANTS)
     acf = cfgs(["nc.d.1.1.b", "c.d.1.1.b", "dfa.d.1.1.u", "auto.d.1.1.u", "nc.d.1.0.b"])
     for n in lens:
-        for _ in range(qn(q, 2, 5)):
+        for _ in range(2 if q else 5):
             pats = packed_pats(g) if g.rng.random() < 0.6 else pre_pats(g)
             r = g.rng.random()
             if r < 0.4:
@@ -1002,7 +1025,7 @@ def custom_C17(run, chk):
         mk = g.rng.choice(["std", "lf", "ll"])
         hays = [pre_hay(g, pats) if g.rng.random() < 0.5 else g.hay(pats, 20) for _ in range(g.rng.randint(2, 5))]
         kv = {"mk": mk, "pats": hxlist(pats), "hays": "|".join(hx(h) for h in hays), "threads": 8,
-              "reps": qn(q, 10, 40), "seed": g.rng.randint(1, 10 ** 6), "cfgs": cfgs(cf)}
+              "reps": (10 if q else 40), "seed": g.rng.randint(1, 10 ** 6), "cfgs": cfgs(cf)}
         reqs.append(fmt_req("threads", kv))
     impl, model, mism = vlib.diff(reqs, "C17")
     run.cov.update({"evaluations": len(impl), "requests": len(reqs),
